@@ -31,7 +31,8 @@ RULE = ('Supported parameter trees (C07 grammar plus list/tuple/dict subclasses 
         'and equal, _results_map is None, no context; serialize_task and find_tasks_in_param accept what construction accepts; and '
         'after a real run (results map, context and result_meta set on the objects) the pickle of the task and of its dependency '
         'contains neither the result marker nor the context marker. Unsupported: construction raises TaskError exactly. '
-        'Non-trivial = tree depth >= 2, or an unsupported leaf below depth 1, or a type with post_init. Distinct = hash of spec.')
+        'Non-trivial = tree depth >= 2, or an unsupported leaf below depth 1, or a type with post_init. Distinct = hash of spec. Engine "main-script": task types defined in __main__ '
+        'of a user script under the spawn backend - the copy in the worker has the caller\'s cache_key.')
 ASSUMPTIONS = ['equality clauses are skipped for trees containing NaN (nan != nan)']
 
 RESULT_MARKER = 'RESULT-MARKER-9c1e77'
